@@ -161,7 +161,24 @@ def parse_verus_stderr(err, lines):
                 break
         if kind is None:
             if 'rlimit' in first or 'Resource limit' in first or 'resource limit' in first:
-                und.append(('rlimit', first, ln))
+                # a reachability twin that exhausts the resource limit while trying to prove `false` has not proved it:
+                # that is the required outcome of the twin ("fails as required"), not an undecided obligation
+                rt = None
+                if ln and ln - 1 < len(lines):
+                    for k in range(ln - 1, min(ln + 400, len(lines))):
+                        t = re.search(r'// @probe (reach:\S+)', lines[k])
+                        if t:
+                            rt = t.group(1)
+                            break
+                        if k > ln and lines[k].startswith('// @fn '):
+                            break
+                    hdr = lines[ln - 1]
+                    if rt and '__reach' not in hdr and '__reach' not in (lines[ln] if ln < len(lines) else ''):
+                        rt = None
+                if rt:
+                    fails.append(dict(kind='rlimit-on-reach-probe', line=ln, tag=rt, fn=None, msg=first))
+                else:
+                    und.append(('rlimit', first, ln))
             else:
                 und.append(('unsupported-or-type-error', b[:1500], ln))
             continue
@@ -201,6 +218,9 @@ def run_verus(name, text, workdir, threads=8, rlimit=None):
     cmd = ['verus', path] + VERUS_FLAGS + ['--num-threads', str(threads), '--output-json', '--time']
     if rlimit:
         cmd += ['--rlimit', str(rlimit)]
+    zs = os.environ.get('VEKVERIF_Z3_SEED')      # stability sweeps only (tools/sweep.sh); registered commands never set it
+    if zs:
+        cmd += ['--smt-option', 'smt.random_seed=' + zs, '--smt-option', 'sat.random_seed=' + zs]
     t0 = time.time()
     tmo = int(os.environ.get('VEKVERIF_VERUS_TIMEOUT', '1500'))
     try:
@@ -367,6 +387,17 @@ def execute(prop, plan, tier, seed, expinfo, t_start):
                 r['errors'] -= 1
             else:
                 undecided.append('%s: vacuity probe assert(false) did NOT fail: ambient axioms are contradictory' % vu['name'])
+        # reachability twins of the theorem functions (`assert(false)` under the theorem's own preconditions, after its own lemma
+        # calls): each must FAIL, otherwise the theorem would hold vacuously
+        reach_expected = set(re.findall(r'// @probe (reach:\S+)', vu['text']))
+        reach_failed = set(f['tag'] for f in r['fails'] if (f['tag'] or '').startswith('reach:'))
+        r['fails'] = [f for f in r['fails'] if not (f['tag'] or '').startswith('reach:')]
+        r['errors'] -= len(reach_failed)
+        for t in sorted(reach_expected - reach_failed):
+            undecided.append('%s: reachability probe %s did NOT fail: the theorem\'s preconditions (or the lemmas it invokes) are contradictory'
+                             % (vu['name'], t))
+        if reach_expected:
+            vac.append(dict(unit=vu['name'], reach_probes=len(reach_expected), failing_as_required=len(reach_expected & reach_failed)))
         for f in r['fails']:
             failed_tags.add(f['tag'])
             violations.append(dict(tag=f['tag'], backend='verus', kind=f['kind'], fn=f['fn'], unit=vu['name'],
